@@ -290,7 +290,17 @@ def rule_guard(ck):
         ck.ob("loop.group_stop", "group_stop/marks-interrupted-thread-stopped", len(marks) >= 1, "", g.loc(ib))
 
 
+
+def rule_complete_walks(ck):
+    ck.rule("loop.resume_all", "TraceeCtl::cont_stopped / cont_stopped_ex visit every entry of threads_state (the selection of stopped threads is a filter inside the pass, never a short-circuit): a resume that ends at the first non-matching thread leaves the rest of the debuggee stopped")
+    rule_complete_passes(ck, "loop.resume_all", [
+        ("debugger::debugee::tracee::TraceeCtl::cont_stopped", ".threads_state", "the resume stops walking the thread table early: some stopped threads are never continued"),
+        ("debugger::debugee::tracee::TraceeCtl::cont_stopped_ex", ".threads_state", "the resume stops walking the thread table early: some stopped threads are never continued"),
+    ])
+
+
 def run(ck):
+    rule_complete_walks(ck)
     # "no thread's original instruction is skipped or executed twice": the rewind / step-off discipline (shared with C01)
     from rules import C01
     C01.rule_rewind(ck)
